@@ -303,6 +303,10 @@ def make_zeroconf_fakes(log: ZcLog) -> tuple[type, type, type]:
 
     class _ServiceInfo:
         def __init__(self, type_: str, name: str, server: str | None = None, **kw: Any) -> None:
+            # the real constructor validates the names (label length in UTF-8 bytes, control characters) and raises for bad ones
+            from zeroconf.asyncio import AsyncServiceInfo as _Real
+
+            _Real(type_, name, server=server, **kw)
             self.type = type_
             self.name = name
             self.server = server
